@@ -17,6 +17,7 @@
 package main
 
 import (
+	"context"
 	"encoding/gob"
 	"fmt"
 	"os"
@@ -436,6 +437,37 @@ func sameStrings(a, b []string) bool {
 	return true
 }
 
+// The nil *Result test lives in Session.run, ahead of everything the hooks
+// restate, so it is observed through a real session: sessionRejects calls
+// (*Session).Run on a local session when one of the arguments is a nil
+// *exec.Result, and tells whether Run returned an error (and did not panic).
+var localSess *exec.Session
+
+func hasNilResult(args []interface{}) bool {
+	for _, a := range args {
+		if r, ok := a.(*exec.Result); ok && r == nil {
+			return true
+		}
+	}
+	return false
+}
+
+func sessionRejects(f *bigslice.FuncValue, args []interface{}) (rejected bool) {
+	if !hasNilResult(args) {
+		return false
+	}
+	if localSess == nil {
+		localSess = exec.Start(exec.Local)
+	}
+	defer func() {
+		if recover() != nil {
+			rejected = false // e.g. a typecheck panic: Run got past the test
+		}
+	}()
+	_, err := localSess.Run(context.Background(), f, append([]interface{}{}, args...)...)
+	return err != nil
+}
+
 // guarded runs f with a watchdog; it reports false if f did not finish.
 func guarded(f func()) bool {
 	done := make(chan struct{})
@@ -515,6 +547,10 @@ func runInv(d Desc) (term string, observed interface{}, sig string) {
 		return f.Invocation("c16", append([]interface{}{}, args...)...), ""
 	}
 	finished = guarded(func() {
+		if sessionRejects(f, args) {
+			outcome = "OSessErr"
+			return
+		}
 		inv, class := mkInv()
 		switch class {
 		case "type":
@@ -647,6 +683,10 @@ func runDeps(d Desc) (term string, observed interface{}) {
 	}
 	f := funcFor(params)
 	finished := guarded(func() {
+		if sessionRejects(f, args) {
+			outcome = "OSessErr"
+			return
+		}
 		var inv bigslice.Invocation
 		class := ""
 		func() {
@@ -789,8 +829,9 @@ func genDeps(r *vf.Rand) Desc {
 	return d
 }
 
-// invSig names the reason a case can fail for: the first nil argument that the
-// code does not ship.
+// invSig names the reason a case can fail for: an untyped nil argument for a
+// non-interface parameter, which the code accepts but does not ship (the only
+// listed finding; typed nil pointers and nil *Results must fail with an error).
 func invSig(d Desc) string {
 	for _, o := range d.Ops {
 		iface := !strings.HasPrefix(o.P, "PC ")
@@ -799,10 +840,6 @@ func invSig(d Desc) string {
 			continue
 		case o.A == "nil" && !iface && nilableCT(strings.TrimPrefix(o.P, "PC ")) && o.P != "PC CChan" && o.P != "PC CFunc":
 			return "c16:untyped-nil-for-concrete-param:not-shipped"
-		case (o.A == "tnil" && o.C == "CResult") || (o.A == "res" && (o.V < 0 || o.V >= d.NRes)):
-			return "c16:nil-result-arg:run-panics"
-		case o.A == "tnil" && pointerCT(o.C) && !iface:
-			return "c16:typed-nil-pointer-arg:run-panics"
 		}
 	}
 	return "inv"
@@ -946,9 +983,14 @@ func genInv(r *vf.Rand) Desc {
 				}
 				iface = !strings.HasPrefix(o.P, "PC ")
 				pc = strings.TrimPrefix(o.P, "PC ")
-				kind = "inv/nil"
-				if iface && a.C == "CPsq" {
+				kind = "inv/nil" // untyped nil for a non-interface parameter: the listed finding
+				switch {
+				case a.A == "tnil" && a.C == "CResult":
+					kind = "inv/nilres" // Session.run must return an error
+				case a.A == "tnil" && iface:
 					kind = "inv/unencodable" // gob cannot represent a nil pointer inside an interface
+				case a.A == "tnil":
+					kind = "inv/nilptr" // GobEncode must return an error
 				}
 			case flavour < 92: // cannot be encoded
 				switch {
@@ -1038,7 +1080,7 @@ func fixedInv() []Desc {
 			ds = append(ds, one("inv/nil", 0, ArgOp{P: "PC " + c, A: "nil"}))
 		}
 		if pointerCT(c) {
-			ds = append(ds, one("inv/nil", 0, ArgOp{P: "PC " + c, A: "tnil", C: c}))
+			ds = append(ds, one("inv/nilptr", 0, ArgOp{P: "PC " + c, A: "tnil", C: c}))
 			ds = append(ds, one("inv/unencodable", 0, ArgOp{P: "PAny", A: "tnil", C: c}))
 		}
 	}
@@ -1064,7 +1106,8 @@ func fixedInv() []Desc {
 	for _, p := range []string{"PC CResult", "PSliceI", "PAny"} {
 		ds = append(ds, one("inv/result", 1, ArgOp{P: p, A: "res", V: 0}))
 		ds = append(ds, one("inv/result", 2, ArgOp{P: p, A: "res", V: 1}, ArgOp{P: "PC CInt", A: "val", C: "CInt", V: 1}, ArgOp{P: p, A: "res", V: 0}))
-		ds = append(ds, one("inv/nil", 0, ArgOp{P: p, A: "tnil", C: "CResult"}))
+		ds = append(ds, one("inv/nilres", 0, ArgOp{P: p, A: "tnil", C: "CResult"}))
+		ds = append(ds, one("inv/nilres", 1, ArgOp{P: "PC CInt", A: "val", C: "CInt", V: 1}, ArgOp{P: p, A: "tnil", C: "CResult"}, ArgOp{P: p, A: "res", V: 0}))
 	}
 	ds = append(ds, one("inv/nil", 0, ArgOp{P: "PC CResult", A: "nil"}))
 	ds = append(ds, one("inv/plain", 0))
@@ -1077,6 +1120,13 @@ func fixedInv() []Desc {
 	ds = append(ds, one("inv/illtyped", 0, ArgOp{P: "PC CInt"}))
 	ds = append(ds, one("inv/illtyped", 0, ArgOp{A: "val", C: "CInt", V: 1}))
 	ds = append(ds, one("inv/illtyped", 1, ArgOp{P: "PC CInt", A: "res", V: 0}))
+	// ill-typed AND a nil *Result: Session.run's test comes before the typecheck
+	ds = append(ds, one("inv/nilres", 0, ArgOp{P: "PC CInt", A: "tnil", C: "CResult"}))
+	ds = append(ds, one("inv/nilres", 0, ArgOp{P: "PC CResult", A: "tnil", C: "CResult"}, ArgOp{P: "PC CInt", A: "val", C: "CString", V: 1}))
+	// a nil pointer after and before an argument that ships / cannot be encoded
+	ds = append(ds, one("inv/nilptr", 0, ArgOp{P: "PC CInt", A: "val", C: "CInt", V: 1}, ArgOp{P: "PC CPtr", A: "tnil", C: "CPtr"}))
+	ds = append(ds, one("inv/nilptr", 0, ArgOp{P: "PC CPsq", A: "tnil", C: "CPsq"}, ArgOp{P: "PC CChan", A: "val", C: "CChan"}))
+	ds = append(ds, one("inv/nilptr", 1, ArgOp{P: "PC CResult", A: "res", V: 0}, ArgOp{P: "PC CPtr", A: "tnil", C: "CPtr"}))
 	return ds
 }
 
